@@ -199,10 +199,16 @@ namespace via
                       size_t max_content_length,
                       size_t max_chunk_size) :
       connection_(connection),
-      remote_address_(connection_.lock()->socket().
-                      remote_endpoint().address().to_string()),
+      remote_address_(),
       rx_(max_content_length, max_chunk_size)
-    {}
+    {
+      // Note: the peer may have disconnected already, in which case the
+      // remote endpoint is not available
+      ASIO_ERROR_CODE error;
+      auto endpoint(connection_.lock()->socket().remote_endpoint(error));
+      if (!error)
+        remote_address_ = endpoint.address().to_string();
+    }
 
     /// The destructor calls close to ensure that all of the socket's
     /// callback functions are cancelled.
